@@ -148,11 +148,43 @@ func nativeReplay(P *Program, hs []HarnessRef, pkgDir string, vecs []*Violation,
 	ovj, _ := json.Marshal(map[string]interface{}{"Replace": ov})
 	ovFile := filepath.Join(tmp, "overlay.json")
 	os.WriteFile(ovFile, ovj, 0o644)
-	cmd := exec.Command("go", "test", "-tags", "verif", "-vet=off", "-count=1", "-v", "-run", "^TestVerifReplay$", "-timeout", "300s", "-overlay", ovFile, "./"+pkgDir)
-	cmd.Dir = repoDir
-	cmd.Env = append(os.Environ(), "GOFLAGS=-mod=mod", "GOPROXY=off", "GOSUMDB=off", "GOTOOLCHAIN=local", "VERIF_REPLAY_DIR="+vdir)
-	outb, err := cmd.CombinedOutput()
-	text := string(outb)
+	// build the test binary once, then run every vector in its own process (a harness may touch
+	// process-wide state such as the function registry: vectors must not influence each other)
+	bin := filepath.Join(tmp, "replay.test")
+	build := exec.Command("go", "test", "-c", "-tags", "verif", "-vet=off", "-overlay", ovFile, "-o", bin, "./"+pkgDir)
+	build.Dir = repoDir
+	build.Env = append(os.Environ(), "GOFLAGS=-mod=mod", "GOPROXY=off", "GOSUMDB=off", "GOTOOLCHAIN=local")
+	if bout, berr := build.CombinedOutput(); berr != nil {
+		return out, string(bout), fmt.Errorf("native replay build failed: %v", berr)
+	}
+	var textB strings.Builder
+	type res struct {
+		i   int
+		out string
+	}
+	resCh := make(chan res, len(vecs))
+	sem := make(chan struct{}, 8)
+	for i := range vecs {
+		go func(i int) {
+			sem <- struct{}{}
+			defer func() { <-sem }()
+			one := filepath.Join(tmp, fmt.Sprintf("one%05d", i))
+			os.MkdirAll(one, 0o755)
+			src := filepath.Join(vdir, fmt.Sprintf("%05d.json", i))
+			b, _ := os.ReadFile(src)
+			os.WriteFile(filepath.Join(one, fmt.Sprintf("%05d.json", i)), b, 0o644)
+			cmd := exec.Command(bin, "-test.run", "^TestVerifReplay$", "-test.v", "-test.timeout", "120s")
+			cmd.Dir = filepath.Join(repoDir, pkgDir)
+			cmd.Env = append(os.Environ(), "VERIF_REPLAY_DIR="+one)
+			o, _ := cmd.CombinedOutput()
+			resCh <- res{i, string(o)}
+		}(i)
+	}
+	for range vecs {
+		r := <-resCh
+		textB.WriteString(r.out)
+	}
+	text := textB.String()
 	reRes := regexp.MustCompile(`VERIF-RESULT file=(\d+)\.json exhausted=(\w+) fails=("(?:[^"\\]|\\.)*")`)
 	reTr := regexp.MustCompile(`VERIF-TRACE file=(\d+)\.json (.*)`)
 	for _, m := range reRes.FindAllStringSubmatch(text, -1) {
